@@ -87,7 +87,7 @@ func body(sp spec) {
 		pub.Outcome = func(call int, topic string, msgs []*message.Message) hx.PubOutcome {
 			o := hx.PubOK
 			if call < sp.MaxPer {
-				o = hx.PubOutcome(vs.Choose(4, 1, "publish fault "+st.name))
+				o = hx.PubOutcome(vs.Choose(5, 1, "publish fault "+st.name))
 			}
 			if current != nil {
 				current.pubSeen = true
@@ -102,13 +102,15 @@ func body(sp spec) {
 			n := calls[st.name]
 			calls[st.name]++
 			if n < sp.MaxPer {
-				iv.fault = vs.Choose(3, 1, "handler fault "+st.name)
+				iv.fault = vs.Choose(4, 1, "handler fault "+st.name)
 			}
 			switch iv.fault {
 			case 1:
 				return nil, hx.ErrHandler
 			case 2:
 				panic("injected handler panic")
+			case 3:
+				return nil, context.Canceled
 			}
 			out := m.Copy() // same lineage: the UUID travels through the pipeline
 			out.Metadata.Set("via", m.Metadata.Get("via")+st.name+">")
